@@ -127,8 +127,12 @@ CLAIMS = {
          "assumption, tested on every run against the verified brute force (<= 5 elements in the ilp suite, <= 6/7 in the exact suite). Per run, "
          "in Coq: captured program = model program row for row, answer integral and feasible for the model rows, model decoder = returned "
          "consensus, objective = reported score = opt, consensus well-formed, flagged optimal, selector (CPLEX absent: free-solver fallback) "
-         "and free-solver model. Not covered: the CPLEX models (CPLEX is not installed; no stand-in was built) and their 'all minimisers' set.",
-         "Trusted: Coq kernel + vm_compute; model tied by correspondence; harness (captures the program by wrapping LpProblem.solve); CBC's optimality judged per run only.",
+         "and free-solver model. CPLEX itself is not installed: the CPLEX models (optimize on / off, one / all optimal consensuses, the optim1 "
+         "variant, the CPLEX branch of the selector) run on a stand-in for the CPLEX API (harness/standin/cplex: same calls, CBC underneath); their "
+         "program = model program row for row, every solution feasible for the model rows and decoded by the model decoder, 'all optimal "
+         "consensuses' = the set of ALL minimisers enumerated in Coq; the no-tie rows are proved to lose no optimum (C05_cplex_notie_optimal) "
+         "- the threshold 0.001 of the source did lose some (finding F15, repaired).",
+         "Trusted: Coq kernel + vm_compute; model tied by correspondence; harness (captures the program by wrapping LpProblem.solve; CPLEX-API stand-in); CBC's optimality judged per run only; the real CPLEX is never run.",
          "DESIGN.md section 4, C05"),
  "C08": ("Coq model of the jitted BioConsert kernels proved correct (difference arrays, scans, moves, sweep loop, termination) + sound local-optimality test; model = code by vm_compute correspondence",
          "Machine-checked for all tables, sizes and departure vectors: the arrays filled by _compute_delta_costs are the difference arrays of the "
